@@ -2,8 +2,8 @@
 # tools/seed_matrix.sh [prefix] [ids...]  run every seed of seeded/<prefix>-Cxx (default: agent and agent2)
 # against its property's check; print a detection table and refresh detected_by/signatures in meta.json.
 cd /verif
-prefixes="agent agent2 agent3 agent4 agent5 agent6"
-case "${1:-}" in agent|agent2|agent3|agent4|agent5|agent6) prefixes=$1; shift;; esac
+prefixes="agent agent2 agent3 agent4 agent5 agent6 agent7 agent8 agent9 agent10 agent11 agent12"
+case "${1:-}" in agent|agent2|agent3|agent4|agent5|agent6|agent7|agent8|agent9|agent10|agent11|agent12) prefixes=$1; shift;; esac
 for pre in $prefixes; do
 for d in seeded/$pre-C*; do
   [ -d "$d" ] || continue
